@@ -177,6 +177,18 @@ def check(ctx):
     ctx.ob('C07.R2.sibling', 'threefold~is_repeated', all(a[k] == b[k] for k in ('first', 'last', 'step', 'key')),
            'both scans cover the same entries with the same key', site='engine/position.cpp')
 
+    # the scans compare keys, the rule compares positions (placement, side, rights, e.p. square): the key stored with every
+    # position is the key of exactly those four things (C04: kept in step by every move, null move and their undoing)
+    from rules.common import SubCtx as _SC4
+    import props.C04 as c04
+    sub4 = _SC4(ctx)
+    c04.check(sub4)
+    bad4 = [r for r in sub4.results if not r[2]]
+    ctx.ob('C07.R2.keys-stand-for-positions', 'history keys', not bad4,
+           'the keys the repetition scans compare are functions of placement, side to move, castling rights and e.p. square (C04)%s'
+           % ('' if not bad4 else ' — refuted: ' + '; '.join('%s %s at %s' % (r[0], r[1], r[4]) for r in bad4[:3])),
+           site=bad4[0][4] if bad4 else 'engine/position.cpp')
+
     # ---- R3 material whitelist + PCV packing ---------------------------------------------------------------------
     em = p.fn(POS + '::enough_material')
     ctx.analysed(em)
